@@ -21,7 +21,7 @@ def jobs(tier):
         D = ['QKIND=%d' % kind, 'QCAP=%d' % cap, 'NP=%d' % np_, 'NC=%d' % nc, 'KP=%d' % kp, 'KC=%d' % kc, 'NT=%d' % nt] + extra
         J.append(Job('%s_c%d_%dp%dc_%dx%d_s%d' % (nm, cap, np_, nc, kp, kc, slices), SRC, 'sched', roots=['^@thread_entry_', '^@world_'], defines=D, clang=CL,
                      ir2c=['--thread', '^@thread_entry_', '--cs-atomic-only'], shims=['libc.c', 'sched.c'],
-                     cbmc=['-DNT=%d' % nt, '-DSLICES=%d' % slices, '-DVERIF_NO_K'], unwind=4, unwindset=['f_sched.1:%d' % (slices + 1)],
+                     cbmc=['-DNT=%d' % nt, '-DSLICES=%d' % slices, '-DVERIF_NO_K'], unwind=4, unwindset=['f_sched.0:%d' % (slices + 1)],
                      nochecks=True, unwinding_assertions=False, timeout=700 if q else 4000, mem_gb=8,
                      desc='%s queue cap %d: %d producers x %d pushes, %d consumers x %d pops, <= %d slices' % (nm, cap, np_, kp, nc, kc, slices),
                      bounds='capacity %d, %dP x %d, %dC x %d, pre-emption before every atomic operation, <= %d execution slices, retry loops unwound 4, SC' % (cap, np_, kp, nc, kc, slices)))
